@@ -963,7 +963,7 @@ if __name__ == "__main__":
 def parse_decls(src):
     """type declarations of a generated file: name -> ("struct", {field: type}) | ("enum", [(variant, {field: type})])"""
     out = {}
-    for m in re.finditer(r"(?m)^pub(?:\(crate\))? struct (\w+) \{\n(.*?)\n\}", src, re.S):
+    for m in re.finditer(r"(?m)^pub(?:\(crate\))? struct (\w+) \{\n((?:[^\n]*\n)*?)\}", src):
         fields = {}
         for fm in re.finditer(r"(?m)^\s+(?:pub )?((?:r#)?\w+): ([^\n]+?),$", m.group(2)):
             fields[fm.group(1).replace("r#", "")] = fm.group(2)
